@@ -216,6 +216,76 @@ MINE = {
 INVARIANT_OF = {"NoLeakOnFailure": "C09", "ReleasedAtMostOnce": "C09", "StructureBeforeBackend": "C09", "ReleasedWhenDropped": "C09"}
 
 
+def _pad(v, u):
+    return (u - v % u) % u
+
+
+def semantic(run, pid):
+    """What a recorded run says about property `pid`, judged on the events' own content and on order-free counts -
+    never on the grain or order of calls that a correct loader is free to choose.  TLC's rejection says that the run
+    is not a behaviour of the specification and where; whether that is this property's matter is decided here.
+    -> list of (kind, text)"""
+    c = run[0]
+    loader, flen, cause = c["loader"], c["flen"], c["cause"]
+    out = []
+    ev = lambda k: [e for e in run if e["ev"] == k]
+    idx = lambda k: [i for i, e in enumerate(run) if e["ev"] == k]
+    res = (ev("loaded") or [{"res": None}])[0]["res"]
+    created = [(i, e) for i, e in enumerate(run) if e["ev"] in ("map", "halloc")]
+    releases = [(i, e) for i, e in enumerate(run) if e["ev"] in ("unmap", "hfree")]
+    if pid == "C08":
+        st = ev("stored")
+        if st and sum(e["n"] for e in ev("fwrite")) != st[0]["slen"]:
+            out.append(("stored", f"store() wrote {sum(e['n'] for e in ev('fwrite'))} bytes but the file is {st[0]['slen']} bytes long "
+                                  "afterwards (an older, longer file was not truncated / a short write)"))
+        if cause == "valid":
+            for _, e in created:
+                if e["ev"] == "map" and loader == "load_mmap" and (e["len"] != flen + _pad(flen, 16) or not e["anon"]):
+                    out.append(("map", f"load_mmap created a mapping of {e['len']} bytes (anonymous: {e['anon']}) for a {flen}-byte file"))
+                if e["ev"] == "map" and loader == "mmap" and (e["len"] != flen or e["anon"] or e["prot"] != "r" or e["off"] != 0):
+                    out.append(("map", f"mmap mapped {e['len']} bytes (prot {e['prot']}, offset {e['off']}, anonymous: {e['anon']}) of a {flen}-byte file"))
+                if e["ev"] == "halloc" and loader == "load_mem" and (e["size"] != flen + _pad(flen, 64) or e["align"] != 64):
+                    out.append(("halloc", f"load_mem allocated {e['size']} bytes aligned {e['align']} for a {flen}-byte file"))
+            rd = ev("read")
+            if loader in ("load_mem", "load_mmap") and rd and sum(e["got"] for e in rd) != flen:
+                out.append(("read", f"{loader} read {sum(e['got'] for e in rd)} bytes of a {flen}-byte file"))
+            if res is not None and res != "ok":
+                out.append(("loaded", f"loading a valid file failed with {res}"))
+    elif pid == "C11":
+        if cause == "trunc":
+            for _, e in created:
+                if e["ev"] == "map" and loader == "mmap" and e["len"] != flen:
+                    out.append(("map", f"mmap mapped {e['len']} bytes of a truncated file of {flen} bytes: what lies beyond the prefix is read"))
+            if res == "ok" and loader in ("load_full", "mmap"):
+                out.append(("loaded", f"{loader} of a truncated file of {flen} bytes returned a value"))
+    elif pid == "C09":
+        ret = idx("returned")
+        drp = idx("dropped")
+        def released_before(i_created, addr, limit):
+            return [j for j, r in releases if r["addr"] == addr and i_created < j < limit]
+        for i, e in created:
+            n_all = [j for j, r in releases if r["addr"] == e["addr"] and j > i]
+            if res is not None and res != "ok":
+                if ret and not released_before(i, e["addr"], ret[0]):
+                    out.append(("returned", f"the failed load ({res}) returned without releasing the region it had created "
+                                            f"({e['ev']} of {e.get('len', e.get('size'))} bytes)"))
+            else:
+                if drp and not released_before(i, e["addr"], drp[-1]):
+                    out.append(("dropped", "the region created by the loader is still there after the case was dropped"))
+            if len(n_all) > 1:
+                out.append((run[n_all[1]]["ev"], "the backing region was released twice"))
+            for j in n_all[:1]:
+                r = run[j]
+                if r.get("len", r.get("size")) != e.get("len", e.get("size")):
+                    out.append((r["ev"], f"the region was created with {e.get('len', e.get('size'))} bytes and released with {r.get('len', r.get('size'))}"))
+                sd = idx("sdrop")
+                if c.get("canary") and res == "ok" and (not sd or sd[0] > j):
+                    out.append(("sdrop", "the backing region was released before the structure was dropped"))
+        if c.get("canary") and res == "ok" and len(idx("sdrop")) != 1 and drp:
+            out.append(("sdrop", f"the structure's Drop ran {len(idx('sdrop'))} times"))
+    return out
+
+
 def record(cases, tag):
     """Run the cases under strace; -> (events, observations)."""
     import os
@@ -339,11 +409,16 @@ def validate(pid, cases, tag, V, known_skip=None):
                 V.violate(f"{pid}:systrace-{inv}:{c['loader']}:{c['cause']}", what, rep)
             else:
                 V.notes.append(f"SPEC-DRIFT {what} (not this property's)")
-        elif e["ev"] in mine:
-            V.violate(f"{pid}:systrace-{e['ev']}:{c['loader']}:{c['cause']}",
-                      f"{name}: {WHAT.get(e['ev'], 'recorded system call rejected')} (event #{at}: {json.dumps(e)})", rep)
         else:
-            V.notes.append(f"SPEC-DRIFT {name}: rejected at `{e['ev']}` (not this property's): {json.dumps(e)[:140]}")
+            sem = semantic(run, pid)
+            if sem:
+                for kind, text in sem:
+                    V.violate(f"{pid}:systrace-{kind}:{c['loader']}:{c['cause']}",
+                              f"{name}: {text} (the recorded calls are not a behaviour of Trace_Loader.tla: first "
+                              f"unexplained event #{at}: {json.dumps(e)[:160]})", rep)
+            else:
+                V.notes.append(f"SPEC-DRIFT {name}: rejected at `{e['ev']}`, nothing this property speaks of is wrong in the run: "
+                               f"{json.dumps(e)[:140]}")
         rejected += 1
         accepted += bad
         pending = pending[bad + 1:]
